@@ -131,7 +131,7 @@ def run(ctx):
     plugdir = os.path.dirname(plug)
 
     # ---- model: serialisable with the lock, not without (sanity of the requirement itself)
-    m = ctx.tlc("Serial", defines={"N": "3", "KindSet": '{"L", "E"}' if quick else '{"L", "P", "E", "R"}'}, timeout=900, tag="schedules")
+    m = ctx.tlc("Serial", defines={"N": "3", "KindSet": '{"L", "E", "F"}' if quick else '{"L", "P", "E", "R", "F"}'}, timeout=900, tag="schedules")
     if m.violated:
         raise MachineryFault("Serial.tla (Locked) violates %s on the model" % m.violated)
     u = ctx.tlc("Serial", cfg="SerialUnlocked.cfg", timeout=300, expect_violation=True, tag="unlocked-sanity")
@@ -177,7 +177,7 @@ def run(ctx):
 
     # ---- free-running
     free = []
-    rounds = 12 if quick else 120
+    rounds = 16 if quick else 120
     for gmp in (1, 2, 16):
         tr, ev = os.path.join(ctx.work, "free_%d.traces" % gmp), os.path.join(ctx.work, "free_%d.events" % gmp)
         e2 = dict(env); e2["GOMAXPROCS"] = str(gmp)
@@ -211,11 +211,11 @@ def run(ctx):
     eids, eacc = validate(ctx, "SerialTrace", [r[2] for r in runs], "lock", canary_events)
     for (res_path, _, _) in runs:
         for r in ctx.read_results(res_path):
-            r["validated"] = True
+            traced = bool(r.get("validated"))      # the harness wrote a trace for this case
             mm = r.get("mismatch") or []
-            if r["id"] not in acc:
+            if traced and r["id"] not in acc:
                 mm.append({"obs": "not-serialisable", "detail": "no one-at-a-time order explains the responses"})
-            if r["id"] not in eacc:
+            if traced and r["id"] not in eacc:
                 r.setdefault("drift", []).append({"obs": "mutual-exclusion", "detail": "lock events are not a behaviour of the locked handler"})
             r["mismatch"] = mm
             ctx.add_result(r)
